@@ -50,6 +50,7 @@
 From Coq Require Import NArith.
 From stdpp Require Import gmap.
 From DvcData Require Import Base.Val.
+From DvcData Require Export Gen.Merge.
 Open Scope N_scope.
 
 (* notations, not definitions: type-class instances are then found syntactically *)
@@ -58,15 +59,16 @@ Notation key := (list (list N)) (only parsing).      (* tuple of str *)
 Notation value := N (only parsing).                  (* id of the ==-class of a (meta, hash_info) pair *)
 Notation dict := (gmap (list (list N)) N) (only parsing).
 
+(* The exception classes [err], [result] (Ok | Err), the operation names [kind] and the control
+   structure of _diff / _merge / merge come from Gen/Merge.v, which translator/mergeunit.py
+   regenerates from hashfile/tree.py on every run; Proofs/MergeGen.v proves that [diff_], [merge_]
+   and [merge_obj] below ARE the generated [g_diff], [g_merge], [g_merge_obj] instantiated with the
+   environment model of this file. *)
+
 (* exceptions: codes of harness/lib/impl.py ERR *)
-Inductive err := MergeError | KeyError | TypeError | LoadError.
 Definition err_code (e : err) : N :=
   match e with MergeError => 6 | KeyError => 8 | TypeError => 99 | LoadError => 2 end.
-Inductive result (A : Type) := Ok (a : A) | Err (e : err).
-Arguments Ok {A} _.
-Arguments Err {A} _.
 
-Inductive kind := KAdd | KRemove | KChange.
 Global Instance kind_eq_dec : EqDecision kind.
 Proof. solve_decision. Defined.
 
